@@ -32,7 +32,7 @@ FlattenModel == \A v \in ValU0 : InFlattenDomain(v) => Canonicalize(Flatten(v)) 
 FlattenPathsModel == \A v \in ValU0 : \A i \in 1..Len(Flatten(v)) :
                         Parse(Format(Flatten(v)[i].p)) = [ok |-> TRUE, keys |-> Flatten(v)[i].p]
 
-ASSUME PrintT(<<"model", "paths", Cardinality(PathU0), "algebra_paths", Cardinality(AU0), "values", Cardinality(ValU0)>>)
+ASSUME PrintT(<<"model", "strings", Cardinality(StrU0), "paths", Cardinality(PathU0), "algebra_paths", Cardinality(AU0), "values", Cardinality(ValU0)>>)
 ASSUME PrintT(<<"model", "AlgebraModel", AlgebraModel>>)
 ASSUME PrintT(<<"model", "OrderIntended", OrderIntended>>)
 ASSUME PrintT(<<"model", "TraverseModel", TraverseModel>>)
